@@ -16,7 +16,7 @@ use lopdf::content::Content;
 use lopdf::{Dictionary, Document, IncrementalDocument, Object, ObjectStream, Stream};
 use serde_json::{json, Map, Value};
 use std::collections::{BTreeMap, BTreeSet};
-use std::path::Path;
+use std::path::{Path, PathBuf};
 
 pub const TAG: &str = "C04";
 pub const ENTRIES: [&str; 8] = ["load_mem", "incremental_load", "content_decode", "stream_filters", "object_stream", "xref_stream", "cmap_text", "text_string"];
@@ -970,6 +970,9 @@ pub fn run(cfg: &RunCfg) -> (PropMeta, ShardOut, Map<String, Value>) {
     if !cfg.quick() {
         memcheck_stage(cfg, &mut out, &mut extra);
     }
+    {
+        debug_stack_stage(cfg, &mut out, &mut extra);
+    }
     (meta, out, extra)
 }
 
@@ -1041,5 +1044,107 @@ pub fn replay_with(prop: &str, w: &Value) -> Vec<Finding> {
 }
 
 pub fn replay(w: &Value) -> Vec<Finding> {
+    if let Some(d) = w.get("case").and_then(|c| c.get("dbg_nesting")) {
+        let kind = d.get("entry").and_then(|x| x.as_str()).unwrap_or("cd").to_string();
+        let depth = d.get("depth").and_then(|x| x.as_u64()).unwrap_or(64) as usize;
+        let verif = PathBuf::from(std::env::var("VERIF_DIR").unwrap_or_else(|_| "/verif".into()));
+        return match dbg_binary(&verif) {
+            Ok(bin) => match dbg_run(&bin, &kind, depth) {
+                Some(false) => vec![dbg_finding(&kind, depth)],
+                _ => vec![],
+            },
+            Err(_) => vec![],
+        };
+    }
     replay_with("C04", w)
+}
+
+// ------------------------------------------------------------------ unoptimised-build stage
+//
+// The monitors above run lopdf at opt-level 2. The recursive-descent parser's frames are several times larger in
+// an unoptimised build (what `cargo build` / `cargo test` of an application give by default), so "never overflows
+// the stack" is observed there as well: a small crate (/verif/dbg_c04, dev profile) parses nesting templates on a
+// thread with the 2 MiB stack that spawned threads and rayon pool threads get by default.
+
+const DBG_KINDS: [(&str, &str); 4] = [
+    ("cd", "Content::decode, dictionary operand"),
+    ("ca", "Content::decode, array operand"),
+    ("fd", "Document::load_mem, dictionary object"),
+    ("fa", "Document::load_mem, array object"),
+];
+const DBG_DEPTHS: [usize; 13] = [4, 8, 16, 24, 32, 48, 64, 72, 80, 96, 128, 192, 256];
+
+fn dbg_binary(verif: &Path) -> Result<PathBuf, String> {
+    static BUILT: std::sync::OnceLock<Result<PathBuf, String>> = std::sync::OnceLock::new();
+    BUILT
+        .get_or_init(|| {
+            let root = std::env::var("VERIF_TARGET").map(PathBuf::from).unwrap_or_else(|_| verif.join("target"));
+            let target = root.join("dbg");
+            let mut cmd = std::process::Command::new("cargo");
+            cmd.args(["build", "--offline", "--manifest-path"]).arg(verif.join("dbg_c04").join("Cargo.toml")).arg("--target-dir").arg(&target);
+            if let Ok(p) = std::env::var("VERIF_LOPDF_PATH") {
+                cmd.arg("--config").arg(format!("paths=[\"{}\"]", p));
+            }
+            cmd.env("CARGO_NET_OFFLINE", "true");
+            match cmd.output() {
+                Ok(o) if o.status.success() => Ok(target.join("debug").join("dbg_c04")),
+                Ok(o) => Err(format!("unoptimised build failed: {}", String::from_utf8_lossy(&o.stderr).lines().rev().take(3).collect::<Vec<_>>().join(" | "))),
+                Err(e) => Err(format!("cargo could not be started: {}", e)),
+            }
+        })
+        .clone()
+}
+
+/// Some(true): the call returned; Some(false): the process was killed (stack overflow abort); None: could not run
+fn dbg_run(bin: &Path, kind: &str, depth: usize) -> Option<bool> {
+    let o = std::process::Command::new("timeout").arg("60").arg(bin).arg(kind).arg(depth.to_string()).output().ok()?;
+    if o.status.success() && String::from_utf8_lossy(&o.stdout).contains("returned") {
+        return Some(true);
+    }
+    let err = String::from_utf8_lossy(&o.stderr);
+    if err.contains("overflowed its stack") || o.status.code().is_none() || o.status.code() == Some(134) || o.status.code() == Some(139) {
+        return Some(false);
+    }
+    None
+}
+
+fn dbg_finding(kind: &str, depth: usize) -> Finding {
+    let bucket = if depth <= 32 { "depth<=32" } else { "depth 33..=256" };
+    let what = DBG_KINDS.iter().find(|k| k.0 == kind).map(|k| k.1).unwrap_or(kind);
+    Finding {
+        signature: format!("stack_overflow|unoptimised build, 2 MiB thread|{}|{}", kind, bucket),
+        what: format!("unoptimised (dev profile) build: {} nested {} levels overflows the 2 MiB stack of a spawned thread and aborts the process (input of about {} bytes)", what, depth, depth * 6 + 8),
+        witness: json!({"kind":"dbg-nesting","case":{"dbg_nesting":{"entry":kind,"depth":depth}}}),
+    }
+}
+
+fn debug_stack_stage(cfg: &RunCfg, out: &mut ShardOut, extra: &mut Map<String, Value>) {
+    let bin = match dbg_binary(&cfg.verif_dir) {
+        Ok(b) => b,
+        Err(e) => {
+            extra.insert("unoptimised_build_stage".into(), json!({"skipped": e}));
+            return;
+        }
+    };
+    let mut report = Map::new();
+    for (kind, _) in DBG_KINDS {
+        let mut max_ok = 0usize;
+        let mut first_bad = None;
+        for depth in DBG_DEPTHS {
+            out.evaluations += 1;
+            match dbg_run(&bin, kind, depth) {
+                Some(true) => max_ok = depth,
+                Some(false) => {
+                    first_bad = Some(depth);
+                    break;
+                }
+                None => break,
+            }
+        }
+        report.insert(kind.to_string(), json!({"deepest_template_that_returned": max_ok, "first_that_overflowed": first_bad}));
+        if let Some(d) = first_bad {
+            out.finding(dbg_finding(kind, d));
+        }
+    }
+    extra.insert("unoptimised_build_stage".into(), Value::Object(report));
 }
